@@ -276,5 +276,4 @@ def recon_checks(ctx, sp, mr, rng):
 
 
 def replay(obj):
-    print(obj)
-    return 1
+    return "rerun"      # regenerated deterministically from the recorded seed (vlib/main.py)
